@@ -23,14 +23,16 @@ class C29(core.Check):
                   "(remake creates and deletes only entries below headDirPath, resp. below its own fresh mkdtemp directory, and an accepted path lies below <head>/hio[/clean]), "
                   "escaping_name_is_rejected_untouched (a base/name whose normalised relative part climbs above its start raises FilerError before anything, mkdtemp included, is touched; this is the fix for F43), "
                   "clear_within_path (_clearPath adds nothing and removes only at/below .path, resp. the directory holding it when temp), history_inside_head / fresh_filer_history_inside_head "
-                  "(induction over any sequence of reopen(clear,reuse,clean)/close(clear) calls: the filesystem differs from the initial one only inside the head / the Filer's mkdtemp directories). "
+                  "(induction over any sequence of reopen(temp,fext,clear,reuse,clean)/close(clear) calls, including calls that switch the Filer between persistent and temporary: the filesystem differs from the "
+                  "initial one only inside the head / the Filer's mkdtemp directories), reopen_to_temp_keeps_siblings (a persistent Filer reopened as temporary clears its old path under the OLD setting: nothing "
+                  "outside the old path and the new mkdtemp directory changes). reuse_with_temp_flip_clears_holding_dir is the witness for known finding C29-K2 (reuse keeps the path, the setting flips). "
                   "'temp resources are removed' is FALSE for the mkdtemp directory itself and the directories between it and .path: witness temp_clear_leaves_tempdir, known finding C29-K1. "
                   "The filesystem and os.path functions are modelled; the correspondence compares full sandbox snapshots with the real Filer after every step.")
     level_note = ("Trusted: Lean kernel + propext/Classical.choice/Quot.sound; POSIX os.path.join/abspath/splitext/split, os.makedirs, shutil.rmtree, os.remove, "
                   "tempfile.mkdtemp as modelled (exercised by the correspondence on the real filesystem); no symlinks, no permission failures, no alt-path fallback.")
     quick_n = 700
     thorough_n = 6000
-    rule = ("case = (name, base, temp, clean, filed, extensioned, fext, pre-existing dirs/sentinel files, steps reopen(clear,reuse,clean)* close(clear)); names/bases of 1-3 segments over "
+    rule = ("case = (name, base, temp, clean, filed, extensioned, fext, pre-existing dirs/sentinel files incl. other Filers' files in the holding directory, steps reopen(clear,reuse,clean,temp,fext)* close(clear)) where a third of the reopens change temp and/or fext; names/bases of 1-3 segments over "
             "plain, dotted ('..', '.', '', '.h', 'a.', '...', '..b', 'x.y') and unicode segments, occasionally absolute; all 16 flag combinations; thorough adds every name of <= 3 segments over "
             "{'..','.','','a','.h','a.b'} x 5 bases x 16 flag combinations. non-trivial = Filer constructed and at least one entry created or deleted; distinct by request line")
     trusted_base = ["translator harness/extract/path.py (Filer.TailDirPath / CleanTailDirPath -> Gen/FilerConsts.lean; the containment proofs re-check that both are non-empty lists of ordinary segments)",
@@ -62,6 +64,16 @@ class C29(core.Check):
         cs.append(("main", "", True, False, True, False, "text", [], [("reopen", False, True, False), ("reopen", False, False, False), ("close", True)]))
         cs.append(("db.d", "b", False, False, False, False, "text", [("hio", "d"), ("hio/b", "d"), ("hio/b/sib", "d"), ("hio/b/sib/keep", "f")],
                    [("reopen", True, False, True), ("close", True)]))
+        shared = [("hio", "d"), ("hio/shared", "d"), ("hio/shared/other.text", "f"), ("hio/shared/otherdir", "d"), ("hio/shared/otherdir/data", "f")]
+        for filed, ext, there in ((True, False, []), (False, True, [("hio/shared/mine.text", "f")]), (False, False, []), (True, True, [])):
+            # a persistent Filer next to other Filers' files is reopened as a temporary one, clearing the old path
+            cs.append(("mine", "shared", False, False, filed, ext, "text", shared + there, [("reopen", True, False, False, True, None), ("close", True)]))
+            cs.append(("mine", "shared", False, False, filed, ext, "text", shared + there, [("reopen", True, True, False, True, None), ("close", True)]))
+            # the known one: the old path is KEPT (reuse) while temp flips, the later clear uses the temp rule on it
+            cs.append(("mine", "shared", False, False, filed, ext, "text", shared + there, [("reopen", False, True, False, True, None), ("close", True)]))
+            # temporary -> persistent
+            cs.append(("mine", "shared", True, False, filed, ext, "text", shared, [("reopen", True, False, False, False, None), ("close", True)]))
+            cs.append(("mine", "shared", True, False, filed, ext, "text", shared, [("reopen", False, True, False, False, "db"), ("close", True)]))
         sib = [("hio", "d"), ("hio/clean", "d"), ("hio/clean/b", "d"), ("hio/clean/b/keep", "f"), ("hio/clean/b/sib", "d"), ("hio/clean/b/sib/keep", "f")]
         for filed, ext in ((False, False), (True, False), (False, True), (True, True)):
             # the clean path is visited twice: what is there is removed, nothing next to it
@@ -109,7 +121,21 @@ class C29(core.Check):
         name, base, temp, clean, filed, ext, fext, pre, steps = case
         return ("filer", _b(name), _b(base), bool(temp), bool(clean), bool(filed), bool(ext), _b(fext),
                 P.HEADSEGS, P.TEMPSEGS, self._initial(case),
-                tuple((s[0],) + tuple(bool(x) for x in s[1:]) for s in steps))
+                tuple(self._wire_step(s) for s in steps))
+
+    @staticmethod
+    def _norm(step):
+        """("reopen", clear, reuse, clean[, temp[, fext]]) -> 6-tuple; temp in (None, True, False), fext None | str"""
+        if step[0] == "reopen":
+            return tuple(step) + (None,) * (6 - len(step))
+        return tuple(step)
+
+    @classmethod
+    def _wire_step(cls, step):
+        st = cls._norm(step)
+        if st[0] == "reopen":
+            return ("reopen", bool(st[1]), bool(st[2]), bool(st[3]), None if st[4] is None else bool(st[4]), None if st[5] is None else _b(st[5]))
+        return ("close", bool(st[1]))
 
     # ---------------------------------------------------------------- implementation
     def run_impl(self, case):
@@ -144,8 +170,9 @@ class C29(core.Check):
                 filer = cls(name=name, base=base, temp=temp, headDirPath=sb.head, clean=clean, filed=filed, extensioned=ext, fext=fext, reopen=True)
             if stage(make):
                 for s in steps:
+                    s = self._norm(s)
                     if s[0] == "reopen":
-                        ok = stage(lambda: filer.reopen(clear=s[1], reuse=s[2], clean=s[3]))
+                        ok = stage(lambda: filer.reopen(clear=s[1], reuse=s[2], clean=s[3], temp=s[4], fext=s[5]))
                     else:
                         ok = stage(lambda: filer.close(clear=s[1]))
                     if not ok:
@@ -160,58 +187,106 @@ class C29(core.Check):
             sb.destroy()
 
     # ---------------------------------------------------------------- oracle: containment on the real snapshots
-    def oracle(self, case, obs):
+    def _stage_clauses(self, case, obs):
+        """[(stage index, clause, temp setting in force before the stage, path before the stage)]"""
         name, base, temp, clean, filed, ext, fext, pre, steps = case
-        bad = set()
+        out = []
         init = obs[0]
         prev = set(init)
         head = P.HEADSEGS
         tmph = P.TEMPSEGS
         path = None
+        cur_temp = bool(temp)
 
-        def inside_head(p):
-            if temp:
-                return len(p) > len(tmph) and p[:len(tmph)] == tmph and p[len(tmph)].startswith(b"TMP")
-            return len(p) > len(head) and p[:len(head)] == head      # strictly inside: the head directory itself is not the Filer's to create or delete
+        def in_temp(p):
+            return len(p) > len(tmph) and p[:len(tmph)] == tmph and p[len(tmph)].startswith(b"TMP")
+
+        def in_head(p):      # strictly inside: the head directory itself is not the Filer's to create or delete
+            return len(p) > len(head) and p[:len(head)] == head
+
+        def inside(p, t):
+            return in_temp(p) if t else in_head(p)
 
         for i, (res, snap) in enumerate(obs[1:]):
             cur = set(snap)
             created = cur - prev
             deleted = prev - cur
-            if any(not inside_head(p) for p, _ in created):
-                bad.add("created-outside-head")
-            if any(not inside_head(p) for p, _ in deleted):
-                bad.add("deleted-outside-head")
+            step = None if i == 0 else self._norm(steps[i - 1])
+            old_temp = cur_temp
+            new_temp = cur_temp
+            if step is not None and step[0] == "reopen" and step[4] is not None and res[0] == "ok":
+                new_temp = bool(step[4])
+            elif step is not None and step[0] == "reopen" and step[4] is not None:
+                new_temp = None     # the call raised: either setting may have been in force
+            ok_new = (lambda p: in_temp(p) or in_head(p)) if new_temp is None else (lambda p: inside(p, new_temp))
+            if any(not ok_new(p) for p, _ in created):
+                out.append((i, "created-outside-head", old_temp, path))
+            if any(not (inside(p, old_temp) or ok_new(p) or (path is not None and p[:len(path)] == path)) for p, _ in deleted):
+                out.append((i, "deleted-outside-head", old_temp, path))
             newpath = res[1] if res[0] == "ok" and res[1] is not None else path
             own = [q for q in (path, newpath) if q is not None]
             if any(e in init for e in deleted if not any(e[0][:len(q)] == q for q in own)):
-                # something that was there before the Filer existed, and is not below its own path, is gone
-                bad.add("removed-foreign-entry")
-            step = None if i == 0 else steps[i - 1]
+                # something that was there before the Filer existed, and is not below its own (old or new) path, is gone
+                out.append((i, "removed-foreign-entry", old_temp, path))
             if step is not None and step[0] == "close" and res[0] == "ok":
                 if step[1]:
                     if path is not None and any(p == path for p, _ in cur):
-                        bad.add("clear-left-path")
-                    if path is not None and any(not (p[:len(path)] == path or (temp and inside_head(p))) for p, _ in deleted):
-                        bad.add("clear-removed-outside-path")
-                    if temp and path is not None and len(path) > len(tmph) and any(p[:len(tmph) + 1] == path[:len(tmph) + 1] for p, _ in cur):
-                        bad.add("temp-not-removed")     # the temporary directory this path lives in is still there
+                        out.append((i, "clear-left-path", old_temp, path))
+                    if path is not None and any(not (p[:len(path)] == path or (in_temp(path) and p[:len(tmph) + 1] == path[:len(tmph) + 1]))
+                                                for p, _ in deleted):
+                        out.append((i, "clear-removed-outside-path", old_temp, path))
+                    if path is not None and in_temp(path) and any(p[:len(tmph) + 1] == path[:len(tmph) + 1] for p, _ in cur):
+                        out.append((i, "temp-not-removed", old_temp, path))     # the temporary directory this path lives in is still there
                 elif deleted:
-                    bad.add("close-without-clear-deleted")
+                    out.append((i, "close-without-clear-deleted", old_temp, path))
             if res[0] == "ok" and res[1] is not None:
                 path = res[1]
+            if new_temp is not None:
+                cur_temp = new_temp
             prev = cur
-        return sorted(bad)
+        return out
+
+    def oracle(self, case, obs):
+        return sorted({c for _, c, _, _ in self._stage_clauses(case, obs)})
 
     def known(self, case, obs, clauses):
-        temp = case[2]
-        if clauses == ["temp-not-removed"] and temp and obs[-1][0][0] == "ok" and obs[-1][0][1] is not None:
-            n = len(P.TEMPSEGS)
-            path = obs[-1][0][1]
-            left = [(p, k) for p, k in obs[-1][1] if p[:n + 1] == path[:n + 1]]
-            # exactly the defect: only (empty) directories of the current temp tree are left, the path itself is gone
-            if left and all(k == "d" for _, k in left) and all(p != path for p, _ in left):
-                return "C29-K1"
+        n = len(P.TEMPSEGS)
+        det = self._stage_clauses(case, obs)
+        ids = set()
+        for i, cl, old_temp, path in det:
+            res, snap = obs[1 + i]
+            if cl == "temp-not-removed":
+                left = [(p, k) for p, k in snap if p[:n + 1] == path[:n + 1]]
+                # exactly the defect: only (empty) directories of the current temp tree are left, the path itself is gone
+                if left and all(k == "d" for _, k in left) and all(p != path for p, _ in left):
+                    ids.add("C29-K1")
+                    continue
+                if not old_temp:
+                    # a temp path kept by reopen(temp=False, reuse=True): cleared like a persistent one
+                    ids.add("C29-K2")
+                    continue
+                return None
+            if cl == "deleted-outside-head":
+                prev = set(obs[0]) if i == 0 else set(obs[i][1])
+                gone = prev - set(snap)
+                hd = P.HEADSEGS
+                if not all((len(p) > len(hd) and p[:len(hd)] == hd) or (len(p) > n and p[:n] == P.TEMPSEGS and p[n].startswith(b"TMP")) for p, _ in gone):
+                    return None          # really outside both heads: never a known finding
+            if cl in ("clear-removed-outside-path", "removed-foreign-entry", "deleted-outside-head"):
+                # the temp SETTING and the kind of path disagree because an earlier reopen(reuse=True, temp=...) kept the
+                # old path while taking over the new setting; the clear of THIS stage then used the wrong rule
+                steps = [self._norm(s) for s in case[8]]
+                kept_flip = any(s[0] == "reopen" and s[2] and s[4] is not None for s in steps[:max(i - 1, 0)])
+                persistent = path is not None and path[:len(P.HEADSEGS)] == P.HEADSEGS
+                if kept_flip and old_temp and persistent:
+                    ids.add("C29-K2")
+                    continue
+                return None
+            return None
+        if len(ids) == 1:
+            return ids.pop()
+        if ids == {"C29-K1", "C29-K2"}:
+            return "C29-K2"
         return None
 
     def nontrivial(self, case, obs):
@@ -231,7 +306,9 @@ class C29(core.Check):
             f.append("pre-populated")
         f.append(f"steps:{len(steps)}")
         for s in steps:
-            f.append("step:" + s[0] + ("+clear" if s[1] else ""))
+            s = self._norm(s)
+            f.append("step:" + s[0] + ("+clear" if s[1] else "") + ("+temp=" + str(s[4]) if s[0] == "reopen" and s[4] is not None else "")
+                     + ("+fext" if s[0] == "reopen" and s[5] is not None else ""))
         return f
 
     def shrink(self, case):
